@@ -488,6 +488,26 @@ def check_C11(ck):
     cases.append(("cancel", "pairprod %s %s %s %s" % (g1.A(g1.C.mul(P, a)), g2.A(Qp), g1.A(g1.C.neg(g1.C.mul(P, a))), g2.A(Qp)))); exp.append(O.show_f12(O.F12_ONE))
     b = rng.randrange(1, R)
     cases.append(("cancel", "pairmulti %s;%s %s;%s" % (g1.A(g1.C.mul(g1.gen, a)), g1.A(g1.C.mul(g1.gen, b)), g2.A(g2.C.mul(g2.gen, b)), g2.A(g2.C.mul(g2.gen, R - a))))); exp.append(O.show_f12(O.F12_ONE))
+    # ONE prepared element (the same reference) serving several pairs of one Miller loop, incl. G1 points that cancel;
+    # the loop is evaluated twice with the same prepared elements (millerref prints FE of the loop)
+    if 0 in val and 1 in val:
+        P1, Q1 = pool[1]
+        mulP = lambda k: g1.C.mul(P0, k % R)
+        def mref(cl, ps, qs, pis, qis, want):
+            cases.append(("shared-prepared/" + cl, "millerref %s %s %s %s" % (";".join(g1.A(P) for P in ps), ";".join(g2.A(Qp) for Qp in qs),
+                          ";".join("%x" % i for i in pis), ";".join("%x" % i for i in qis))))
+            exp.append(O.show_f12(want))
+        mref("P,-P same Q", [P0, g1.C.neg(P0)], [Q0], [0, 1], [0, 0], O.F12_ONE)
+        mref("5P,11P,-16P same Q", [mulP(5), mulP(11), mulP(-16)], [Q0], [0, 1, 2], [0, 0, 0], O.F12_ONE)
+        mref("2P,3P same Q", [mulP(2), mulP(3)], [Q0], [0, 1], [0, 0], O.f12_pow(val[0], 5))
+        mref("same P, Q and -Q", [P0], [Q0, g2.C.neg(Q0)], [0, 0], [0, 1], O.F12_ONE)
+        mref("same P same Q twice", [P0], [Q0], [0, 0], [0, 0], O.f12_pow(val[0], 2))
+        mref("cancelling pair then another", [P0, g1.C.neg(P0), P1], [Q0, Q1], [0, 1, 2], [0, 0, 1], val[1])
+        mref("other pair between cancelling ones", [P0, P1, g1.C.neg(P0)], [Q0, Q1], [0, 1, 2], [0, 1, 0], val[1])
+        mref("identity shares the prepared Q", [None, P0], [Q0], [0, 1], [0, 0], val[0])
+        mref("identity Q shared", [P0, P1], [None, Q1], [0, 1, 1], [0, 0, 1], val[1])
+        a_ = rng.randrange(1, R)
+        mref("aP,(r-a)P same Q", [mulP(a_), mulP(R - a_)], [Q0], [0, 1], [0, 0], O.F12_ONE)
     res = ck.run(cases)
     mil = []
     for c, (impl, _), want in zip(cases, res, exp):
